@@ -19,6 +19,8 @@ RULE = (
     '  Added: named indexes, duplicated junk columns, unused all-NaN columns under every na_action, a column 3e7 '
     '+ small under scale / center, an observation-level factor, the probe rows evaluated in every order on one '
     'design, the data-frame view of each of those results. '
+    'Later: unseen levels under index relabelling, case-only differing values, a used label occurring twice, '
+    "1500-row frames, ties, the first design's lists reversed before the transformed frames are built. "
 )
 ASSUMPTIONS = ["tolerance rtol=1e-9/atol=1e-12 for permuted reductions (summation order)", "fitted parameters are compared through the encoding of a fixed probe frame"]
 
